@@ -22,6 +22,23 @@ pub struct VcfModel {
     pub contigs: Vec<(String, usize)>,
 }
 
+/// What noodles' VCF writer makes of a record line: non-ASCII characters in values are
+/// percent-encoded byte by byte (the harness text keeps them raw).
+pub fn canonical_line(line: &str) -> String {
+    let mut out = String::with_capacity(line.len());
+    for ch in line.chars() {
+        if ch.is_ascii() {
+            out.push(ch);
+        } else {
+            let mut b = [0u8; 4];
+            for byte in ch.encode_utf8(&mut b).bytes() {
+                out.push_str(&format!("%{byte:02X}"));
+            }
+        }
+    }
+    out
+}
+
 impl VcfModel {
     pub fn text(&self) -> String {
         let mut s = self.header.clone();
@@ -95,17 +112,23 @@ fn gen_int(rng: &mut Rng) -> String {
 
 fn gen_str(rng: &mut Rng) -> String {
     let n = 1 + rng.usize_below(8);
-    (0..n)
-        .map(|_| {
-            let c = match rng.below(6) {
-                0 => b'0' + rng.below(10) as u8,
-                1 => b'A' + rng.below(26) as u8,
-                2 => *rng.pick(b"_-+|/"),
-                _ => b'a' + rng.below(26) as u8,
-            };
-            c as char
-        })
-        .collect()
+    // VCF text is UTF-8: now and then a 2- or 3-byte character inside a string value, so that a
+    // delivery boundary can fall inside a multi-byte sequence
+    let utf8_at = if rng.chance(1, 6) { Some(rng.usize_below(n)) } else { None };
+    let mut s = String::new();
+    for i in 0..n {
+        if utf8_at == Some(i) {
+            s.push(if i % 2 == 0 { 'é' } else { '→' });
+        }
+        let c = match rng.below(6) {
+            0 => b'0' + rng.below(10) as u8,
+            1 => b'A' + rng.below(26) as u8,
+            2 => *rng.pick(b"_-+|/"),
+            _ => b'a' + rng.below(26) as u8,
+        };
+        s.push(c as char);
+    }
+    s
 }
 
 fn gen_value(rng: &mut Rng, d: &InfoDef, n_alt: usize) -> Option<String> {
